@@ -600,7 +600,7 @@ func (w *world) kfFor(o string, jobs map[string]string, levels []map[string]stri
 	at := -1
 	for k, lv := range levels {
 		for name, out := range lv {
-			if w.rankOf(name) >= 0 && out != "err" && at < 0 {
+			if w.rankOf(name) >= 0 && (out == "ok" || out == "reserved") && at < 0 {
 				at = k
 			}
 		}
